@@ -18,15 +18,15 @@ Import BTreeSpec BTreeModel BTreeProofsBase BTreeProofsHist Properties_C01.
    (although pages may already have been split on the way down) and the invariant holds afterwards *)
 Theorem btree_alloc_failure_atomic :
   forall (elt : Type) (rank : elt -> Z) (dflt : elt) (L I : nat), I = L / 2 -> 3 <= I ->
-  forall (o : list bool) (t : tree elt) (e : elt), Inv rank L I t ->
-    let '(st, t', o', lg) := insert rank dflt L I o t e in
+  forall (H : nat) (o : list bool) (t : tree elt) (e : elt), Inv rank L I t ->
+    let '(st, t', o', lg) := insert rank dflt L I H o t e in
     Inv rank L I t' /\
     (st = NO_MEM -> elements (root t') = elements (root t)) /\
     ((forall b, In b o -> b = true) -> st <> NO_MEM).
 Proof.
-  intros elt rank dflt L I HI H3 o t e Hinv.
-  pose proof (btree_insert_refines elt rank dflt L I HI H3 o t e Hinv) as H.
-  destruct (insert rank dflt L I o t e) as [[[st t'] o'] lg].
+  intros elt rank dflt L I HI H3 MH o t e Hinv.
+  pose proof (btree_insert_refines elt rank dflt L I HI H3 MH o t e Hinv) as H.
+  destruct (insert rank dflt L I MH o t e) as [[[st t'] o'] lg].
   destruct H as (A & _ & _ & B & C & _). split; [exact A|split; [exact B|exact C]].
 Qed.
 End BTreeFault.
